@@ -447,6 +447,18 @@ def expected_with_fill(cfg, m):
 
 # ------------------------------------------------------------------------------- batch driver
 
+def budget_scale(res):
+    """1 normally; larger when a hand-modelled function's text differs from the committed fingerprint
+    (the hand model may have gone stale there: run the quick tier with a thorough-size budget)"""
+    import fingerprint
+    ch = fingerprint.changed(common.REPO)
+    res.extra["fingerprints_changed"] = ch
+    if ch and res.tier == "quick":
+        res.notes.append("hand-modelled functions changed since the models were written: %s -- quick tier runs with a x6 budget" % ", ".join(ch)[:400])
+        return 6
+    return 1
+
+
 def run_histories(res, nhist, oracle, invalid_rate=0.0, blocks=True, modes=None, nops=(2, 7), gaprule=None,
                   small=True, sessions=False, keep=False):
     """Generate nhist histories, run each on the implementation and on the model, record
@@ -458,6 +470,7 @@ def run_histories(res, nhist, oracle, invalid_rate=0.0, blocks=True, modes=None,
     work = common.scratch_dir()
     if gaprule is None:
         gaprule = detect_gaprule(res)
+    nhist = nhist * budget_scale(res)
     hs = []
     for i in range(nhist):
         cfg = gen_cfg(rng, small=small, modes=modes)
